@@ -71,6 +71,8 @@ def probe_malformed(ctx, ex, titles, case0):
     r = ctx.r
     probes = [(titles[0], 'A', t) for t in BAD_ROWS] + [(titles[0], c, '1') for c in BAD_COLS] + [(t, 'A', '1') for t in BAD_TITLES]
     # positions given as numbers that are no whole number from 0
+    # a position without a row: the way formulas name a whole column, not a cell that can be asked for or given a value
+    probes += [(0, 0, None), (titles[0], 'A', None), (titles[0], 'B', ''), (0, 1, None)]
     probes += [(0, 2.0, 0), (0, 2, 0.0), (0, 5.5, 7), (0, 2, -1), (0, -1, 0), (0, True, 0), (0, 0, False), (0, 1, 1.5), (0, (1,), 0)]
     for t in BAD_TITLES:
         o = pipeline.guarded(lambda: ex.get_sheet(t), 'evaluate')
@@ -512,14 +514,16 @@ def run_classfile(ctx):
             continue
         os.symlink(os.path.join('..', 'real', 'model.py'), link)
         os.link(real, hard)
-        names = {'real': real, 'symlink': link, 'hardlink': hard, 'dotted': dotted, 'relative': os.path.join('real', 'model.py')}
-        through = ['symlink', 'hardlink', 'relative', 'dotted', 'real'][trial % 5]
+        import pathlib
+        names = {'real': real, 'symlink': link, 'hardlink': hard, 'dotted': dotted, 'relative': os.path.join('real', 'model.py'),
+                 'pathlib': pathlib.Path(real), 'pathlib-relative': pathlib.Path('current') / 'model.py'}
+        through = ['symlink', 'hardlink', 'relative', 'dotted', 'real', 'pathlib'][trial % 6]
         for v in (1, 2):
             wpath, want = books_[v]
             cwd = os.getcwd()
             try:
                 os.chdir(d)
-                w = pipeline.guarded(lambda: Parser().set_excel_file_path(wpath).write_translation(names[through]), 'translate')
+                w = pipeline.guarded(lambda: Parser().set_excel_file_path(pathlib.Path(wpath) if v == 2 else wpath).write_translation(names[through]), 'translate')
             finally:
                 os.chdir(cwd)
             r.ev()
